@@ -385,3 +385,11 @@ func JSON(v any) string {
 	b, _ := json.Marshal(v)
 	return string(b)
 }
+
+// HasDistinct reports whether key was recorded in category cat.
+func (c *Ctx) HasDistinct(cat, key string) bool {
+	c.mu.Lock()
+	defer c.mu.Unlock()
+	_, ok := c.distinct[cat][key]
+	return ok
+}
